@@ -28,11 +28,19 @@ Classification of a case
   Evaluator-internal: if renaming changes the *evaluator's* outcome the case is dropped and
   reported as a broken correspondence of the harness (uniquifier), never as a violation.
 
+Heap configurations (`heaps=(150, 400)`): the original program additionally runs with these small
+VM heaps (nevrun batch entries `<id>.h<mem>` with `mem=<mem>`; default 20000 cells), so that
+garbage collections really happen while frames are suspended in calls.  A run that reaches the
+heap limit is skipped for that configuration; a crash or an outcome that differs from the
+evaluator's is classified as (b) / (a) with the configuration in the replay, and is shrunk under
+the same heap.  heap_mode "all": every case runs with every size; "rotate": case i runs with
+heaps[i mod len].
+
 Constructs the generator avoids on purpose (each is a known difference, reported to the lead):
   * closure capturing x followed by a binding of x later in the same block (pinned compiler:
     assertion `unknown freevar x during emit`) — known finding, kept as corpus/C08/late_shadow_*.json;
-  * a nested function using a name that a *following adjacent* nested function defines (Never:
-    adjacent nested functions are mutually recursive; Eval.v: only earlier ones are visible);
+  * (no longer avoided: adjacent nested functions are mutually visible in Never and, through func_env,
+    in Eval.v: forward references and mutual recursion between siblings are generated);
   * compile-time constant zero divisors (rejected by the compiler);
   * catch clauses on a function whose self call is in tail position (the compiler turns the call into
     a jump; a clause that faults is then not followed by the clauses of the replaced activations; ruled
@@ -179,8 +187,21 @@ def split_batch(text):
 # ------------------------------------------------------------------------------------------------
 # one chunk: generate, run, compare
 # ------------------------------------------------------------------------------------------------
+def heaps_of(cid, heaps, heap_mode):
+    """the small heap sizes case `cid` (= <profile>-<seed>-<index>) additionally runs with"""
+    if not heaps:
+        return ()
+    if heap_mode == "rotate":
+        try:
+            i = int(cid.rsplit("-", 1)[1])
+        except ValueError:
+            i = 0
+        return (heaps[i % len(heaps)],)
+    return tuple(heaps)
+
+
 def run_chunk(job):
-    nevrun, tmp, profile, seed, n, overrides, variants, timeout = job
+    nevrun, tmp, profile, seed, n, overrides, variants, timeout, heaps, heap_mode = job
     d = os.path.join(tmp, "%s_%d" % (profile, seed))
     os.makedirs(d, exist_ok=True)
     t0 = time.time()
@@ -190,26 +211,32 @@ def run_chunk(job):
     if rc != 0:
         return {"error": "generator failed rc=%s: %s" % (rc, (se or so)[-1500:]), "profile": profile, "seed": seed}
     batch = os.path.join(d, "batch_%s.txt" % tag)
-    if tuple(variants) != ("o", "u", "r"):
+    nheap = 0
+    if tuple(variants) != ("o", "u", "r") or heaps:
         srcs = split_batch(open(batch).read())
         with open(batch, "w") as f:
             for pid, src in srcs.items():
-                if pid.rsplit(".", 1)[1] in variants:
+                cid, var = pid.rsplit(".", 1)
+                if var in variants:
                     f.write("@@@ %s stack=3000 mem=20000\n%s" % (pid, src))
+                if var == "o":
+                    for mem in heaps_of(cid, heaps, heap_mode):
+                        f.write("@@@ %s.h%d stack=3000 mem=%d\n%s" % (cid, mem, mem, src))
+                        nheap += 1
     t1 = time.time()
-    nprog = n * len(variants)
+    nprog = n * len(variants) + nheap
     # the whole batch has a time budget too: a tree on which loops do not terminate any more must not
     # stall the check (programs not reached are counted as skipped; what was seen is reported)
     rc, out, err = common.sh([nevrun, "--timeout", str(timeout), "--batch", batch], timeout=40 + 0.25 * nprog, env=drv_env())
     trun = time.time() - t1
     real = parse_nevrun(out)
-    res = compare_chunk(d, tag, real, variants)
+    res = compare_chunk(d, tag, real, variants, heaps, heap_mode)
     res.update({"profile": profile, "seed": seed, "tgen": tgen, "trun": trun, "dir": d})
     res["dist"] = json.load(open(os.path.join(d, "dist_%s.json" % tag)))
     return res
 
 
-def compare_chunk(d, tag, real, variants):
+def compare_chunk(d, tag, real, variants, heaps=(), heap_mode="all"):
     srcs = None
     asts = None
 
@@ -229,7 +256,8 @@ def compare_chunk(d, tag, real, variants):
         return asts.get(cid, "")
 
     res = {"evaluations": 0, "cases": 0, "nontrivial_hashes": [], "c02": [], "c08": [], "crashes": [],
-           "rejected": [], "limits": 0, "harness": [], "samples": [], "agree": 0, "notrun": 0}
+           "rejected": [], "limits": 0, "harness": [], "samples": [], "agree": 0, "notrun": 0,
+           "heap_runs": 0, "heap_limits": 0, "heap_agree": 0}
     for line in open(os.path.join(d, "expect_%s.tsv" % tag)):
         f = line.rstrip("\n").split("\t")
         if len(f) < 7:
@@ -256,6 +284,33 @@ def compare_chunk(d, tag, real, variants):
             c["expected"] = short(exp)
             c["real"] = {v: short(x) for v, x in outs.items()}
             return c
+
+        # the original under small heaps: collections happen while calls are pending.  Reported only when
+        # the default configuration itself behaves (that one is classified below); one report per case
+        o_fine = o is not None and o["kind"] in ("RESULT", "UNHANDLED") and same(o, exp)
+        for mem in heaps_of(cid, heaps, heap_mode):
+            h = real.get("%s.h%d" % (cid, mem))
+            if h is None:
+                continue
+            res["heap_runs"] += 1
+            res["evaluations"] += 1
+            if h["kind"] == "LIMIT":
+                res["heap_limits"] += 1
+            elif h["kind"] == "COMPILE_ERROR" or not o_fine:
+                pass
+            elif h["kind"] == "CRASH":
+                c = full({"variant": "o", "mem": mem, "crash": h["value"], "log": h["log"],
+                          "what": "crash with a %d-cell heap (no crash with 20000 cells)" % mem})
+                c["real"]["h%d" % mem] = short(h)
+                res["crashes"].append(c)
+                break
+            elif not same(h, exp):
+                c = full({"mem": mem, "what": "with a %d-cell heap the real outcome differs from the evaluator (and from the run with 20000 cells)" % mem})
+                c["real"]["h%d" % mem] = short(h)
+                res["c02"].append(c)
+                break
+            else:
+                res["heap_agree"] += 1
 
         kinds = {v: x["kind"] for v, x in outs.items()}
         if any(k == "CRASH" for k in kinds.values()):
@@ -308,7 +363,9 @@ def still_failing(exp_line, real):
 
 
 def shrink(nevrun, tmp, case, budget_s=90, max_rounds=60, want_crash=False):
-    """greedy: among all one-step simplifications keep the smallest one that still disagrees"""
+    """greedy: among all one-step simplifications keep the smallest one that still disagrees
+    (under the heap configuration of the case; candidates that reach the heap limit are dropped)"""
+    mem = int(case.get("mem") or 20000)
     d = os.path.join(tmp, "shrink_" + re.sub(r"[^A-Za-z0-9]", "_", case["case"]))
     os.makedirs(d, exist_ok=True)
     cur_ast, best = case["ast"], None
@@ -334,7 +391,7 @@ def shrink(nevrun, tmp, case, budget_s=90, max_rounds=60, want_crash=False):
             p = os.path.join(d, "part_%d.txt" % i)
             with open(p, "w") as f:
                 for pid in part:
-                    f.write("@@@ %s stack=3000 mem=20000\n%s" % (pid, srcs[pid]))
+                    f.write("@@@ %s stack=3000 mem=%d\n%s" % (pid, mem, srcs[pid]))
             files.append(p)
         with concurrent.futures.ThreadPoolExecutor(NPROC) as ex:
             outs = list(ex.map(lambda p: common.sh([nevrun, "--timeout", "5", "--batch", p], timeout=600, env=drv_env())[1], files))
@@ -360,6 +417,7 @@ def shrink(nevrun, tmp, case, budget_s=90, max_rounds=60, want_crash=False):
     shutil.rmtree(d, ignore_errors=True)
     if best is not None:
         best["rounds"] = rounds
+        best["mem"] = mem
     return best
 
 
@@ -367,7 +425,8 @@ def shrink(nevrun, tmp, case, budget_s=90, max_rounds=60, want_crash=False):
 # corpus
 # ------------------------------------------------------------------------------------------------
 def run_corpus(nevrun, tmp, corpus_dir):
-    """corpus entries: *.json with {"ast": sexp} (evaluated again by the model) — run first"""
+    """corpus entries: *.json with {"ast": sexp} (evaluated again by the model) — run first; an optional
+    "mem" gives the VM heap (cells) the entry needs for its mechanism (default 20000)"""
     res = []
     if not os.path.isdir(corpus_dir):
         return res
@@ -391,7 +450,7 @@ def run_corpus(nevrun, tmp, corpus_dir):
             with open(os.path.join(d, "one.txt"), "w") as g:
                 g.write("%s\t%s\n" % (e[:-5], json.load(open(os.path.join(corpus_dir, e)))["ast"]))
             rc, src, _ = run_ocaml(["pp", os.path.join(d, "one.txt")])
-            f.write("@@@ %s.o stack=3000 mem=20000\n%s" % (e[:-5], src))
+            f.write("@@@ %s.o stack=3000 mem=%d\n%s" % (e[:-5], int(json.load(open(os.path.join(corpus_dir, e))).get("mem", 20000)), src))
     rc, out, err = common.sh([nevrun, "--timeout", "10", "--batch", os.path.join(d, "batch.txt")], timeout=600, env=drv_env())
     real = parse_nevrun(out)
     srcs = split_batch(open(os.path.join(d, "batch.txt")).read())
@@ -446,7 +505,7 @@ def summarise_dist(d):
 
 
 def run_evaldiff(ctx, profiles, ncases, tier, on_crash=None, variants=("o", "u", "r"), overrides=(), nevrun=None,
-                 shrink_max=3, timeout=4, shrink_budget_s=45):
+                 shrink_max=3, timeout=4, shrink_budget_s=45, heaps=(), heap_mode="all"):
     """Returns dict(c02=[...], c08=[...], crashes=[...], rejected=[...], harness=[...], evaluations,
     distinct_nontrivial, distribution (per profile), throughput...).  Reporting is left to the caller
     (checks/c02.py, checks/c08.py) except for nothing: this function does not touch ctx.violations."""
@@ -468,7 +527,7 @@ def run_evaldiff(ctx, profiles, ncases, tier, on_crash=None, variants=("o", "u",
         while left > 0:
             n = min(CHUNK_OF.get(prof, CHUNK), left)
             seed = (ctx.seed * 1000003 + pi * 10007 + k) % 2000000011
-            jobs.append((nevrun, tmp, prof, seed, n, tuple(overrides), tuple(variants), timeout))
+            jobs.append((nevrun, tmp, prof, seed, n, tuple(overrides), tuple(variants), timeout, tuple(heaps), heap_mode))
             left -= n
             k += 1
     jobs.sort(key=lambda j: 0 if j[2] in CHUNK_OF else 1)      # slow chunks first
@@ -477,7 +536,8 @@ def run_evaldiff(ctx, profiles, ncases, tier, on_crash=None, variants=("o", "u",
         results = list(ex.map(run_chunk, jobs))
     wall = time.time() - t0
     out = {"c02": [], "c08": [], "crashes": [], "rejected": [], "harness": [], "errors": [], "evaluations": 0, "cases": 0,
-           "limits": 0, "agree": 0, "notrun": 0, "samples": [], "distribution": {}, "wall_s": round(wall, 2)}
+           "limits": 0, "agree": 0, "notrun": 0, "samples": [], "distribution": {}, "wall_s": round(wall, 2),
+           "heap_runs": 0, "heap_limits": 0, "heap_agree": 0, "heaps": list(heaps), "heap_mode": heap_mode}
     hashes = set()
     dist = {}
     for r in results:
@@ -486,7 +546,7 @@ def run_evaldiff(ctx, profiles, ncases, tier, on_crash=None, variants=("o", "u",
             continue
         for k in ("c02", "c08", "crashes", "rejected", "harness"):
             out[k].extend(r[k])
-        for k in ("evaluations", "cases", "limits", "agree", "notrun"):
+        for k in ("evaluations", "cases", "limits", "agree", "notrun", "heap_runs", "heap_limits", "heap_agree"):
             out[k] += r[k]
         hashes.update(r["nontrivial_hashes"])
         out["samples"].extend(r["samples"][:1])
@@ -528,8 +588,10 @@ def case_key(prefix, c):
 def replay_of(c):
     r = {"case": c["case"], "profile": c.get("profile"), "source": c.get("source"), "ast": c.get("ast"),
          "expected_by_evaluator": c.get("expected"), "observed": c.get("real"), "what": c.get("what"),
-         "how_to_replay": "build/ocaml/eval/run eval <file with the ast s-expression>; put '@@@ x' + source into a file and run "
-                          "<bin/repobuild asan>/nevrun --batch file"}
+         "how_to_replay": "build/ocaml/eval/run eval <file with the ast s-expression>; put '@@@ x stack=3000 mem=%d' + source into "
+                          "a file and run <bin/repobuild asan>/nevrun --batch file" % int(c.get("mem") or 20000)}
+    if c.get("mem"):
+        r["heap_cells"] = c["mem"]
     for k in ("log", "crash", "variant", "variant_source", "error"):
         if k in c:
             r[k] = c[k]
@@ -537,6 +599,8 @@ def replay_of(c):
         m = c["minimised"]
         r["minimised"] = {"source": m["source"], "ast": m["ast"], "expected_by_evaluator": m["expected"],
                           "observed": m["real"], "nodes": m["nodes"], "signature": m["signature"]}
+        if m.get("mem") and m["mem"] != 20000:
+            r["minimised"]["heap_cells"] = m["mem"]
     return r
 
 
@@ -549,9 +613,11 @@ if __name__ == "__main__":
     os.makedirs(_Ctx.outdir, exist_ok=True)
     profs = sys.argv[1].split(",") if len(sys.argv) > 1 and sys.argv[1] not in ("", "all") else ALL_PROFILES
     n = int(sys.argv[2]) if len(sys.argv) > 2 else 600
-    r = run_evaldiff(_Ctx, profs, n, "quick", overrides=sys.argv[3:], shrink_max=int(os.environ.get("SHRINK", "2")))
+    hp = tuple(int(x) for x in os.environ.get("HEAPS", "").split(",") if x)
+    r = run_evaldiff(_Ctx, profs, n, "quick", overrides=sys.argv[3:], shrink_max=int(os.environ.get("SHRINK", "2")), heaps=hp)
     for k in ("c02", "c08", "crashes", "rejected", "harness", "errors"):
         print(k, len(r[k]))
-    print({k: r[k] for k in ("evaluations", "cases", "limits", "agree", "distinct_nontrivial", "wall_s", "throughput_programs_per_s")})
+    print({k: r[k] for k in ("evaluations", "cases", "limits", "agree", "distinct_nontrivial", "wall_s", "throughput_programs_per_s",
+                             "heap_runs", "heap_limits", "heap_agree")})
     with open(os.path.join(_Ctx.outdir, "result.json"), "w") as f:
         json.dump(r, f, indent=1, default=str)
